@@ -99,8 +99,8 @@ func build(window string, data int) *world {
 	w.restA = restA
 	w.add(b1, 2, []*pb.Transaction{vkit.Coinbase("cb2", "M", w.award.Bytes()), t2, t5})
 
-	y := big.NewInt(main("y", 0, 9, 3))
-	fz := pick("frozen", -1, 3, 0)
+	y := big.NewInt(main("y", 1, 9, 3)) // t6 cites the output (zero-value outputs stay covered by z)
+	fz := pick("frozen", 0, 2, 1)       // thawed by height 2, where t6 spends it
 	t3 := vkit.Tx("t3", []*protos.TxInput{vkit.In(root, 0, "A", hundred)}, []*protos.TxOutput{vkit.Out("C", y, fz), vkit.Out("A", new(big.Int).Sub(hundred, y), 0)})
 	t3.Autogen = true
 	c1 := w.add(0, 3, []*pb.Transaction{vkit.Coinbase("cb3", "M", w.award.Bytes()), t3})
@@ -109,7 +109,11 @@ func build(window string, data int) *world {
 	vrt.Assume(u.Cmp(restA3) <= 0 && restA3.Sign() > 0)
 	t4 := vkit.Tx("t4", []*protos.TxInput{vkit.In([]byte("t3"), 1, "A", restA3)}, []*protos.TxOutput{vkit.Out("B", u, 0), vkit.Out("A", new(big.Int).Sub(restA3, u), 0)})
 	t4.Autogen = true
-	w.add(c1, 4, []*pb.Transaction{vkit.Coinbase("cb4", "M", w.award.Bytes()), t4})
+	// t6 spends the output that was frozen until fz; like a wallet it copies the frozen height into its input
+	t6 := vkit.Tx("t6", []*protos.TxInput{vkit.In([]byte("t3"), 0, "C", y)}, []*protos.TxOutput{vkit.Out("B", y, 0)})
+	t6.TxInputs[0].FrozenHeight = fz + frozenClaimSkew
+	t6.Autogen = true
+	w.add(c1, 4, []*pb.Transaction{vkit.Coinbase("cb4", "M", w.award.Bytes()), t4, t6})
 	if deepWorld {
 		// two more main-branch blocks (award only, hence applicable by Walk's redo leg): depth 4
 		b3 := w.add(2, 5, []*pb.Transaction{vkit.Coinbase("cb5", "M", w.award.Bytes())})
@@ -117,6 +121,9 @@ func build(window string, data int) *world {
 	}
 	return w
 }
+
+// frozenClaimSkew: added to the frozen height t6's input claims for the output it spends (0: faithful)
+var frozenClaimSkew int64
 
 // deepWorld: set by the harnesses that need a chain of depth 4 (finality windows of 2)
 var deepWorld bool
@@ -1302,3 +1309,8 @@ func verifC12PlayVsSubmit() {
 }
 
 func VerifC12PlayVsSubmit() { verifC12PlayVsSubmit() }
+
+// VerifC01FrozenClaim: as VerifC01AnyStart, but the spender of the once-frozen output claims another
+// frozen height in its input than the output really has (the input's field is covered by the signed
+// digest, chosen by the spender, and not compared with the output on admission).
+func VerifC01FrozenClaim() { frozenClaimSkew = 1; walksFrom(2, "0", 0, true) }
